@@ -26,6 +26,21 @@ PROPS = {
         technique="Lean 4 proof (refinement to a mathematical set by induction over operation sequences) + differential correspondence on op histories",
         explanation="refinement theorem for all op sequences; correspondence on random histories",
     ),
+    "C08": dict(
+        title="gsort: generated Less is the lexicographic strict weak order",
+        lean_modules=["Properties.C08"],
+        harness=[dict(bin="h-gsort")],
+        trusted=[GO_TRUST % "h-gsort",
+                 "sort.Sort / sort.Stable return an ascending (resp. ascending and tie-preserving) permutation when Less is a strict weak order (contract; observed on every sampled slice, not proved)",
+                 "Go's ==, < on strings, integers and non-NaN floats are equality and a strict total order; go/parser + go/printer (used to read the generated Less bodies)"],
+        assumptions=["field values are compared through an abstract strict total order per key (floats without NaN); bool keys are Go bools",
+                     "records are well typed for the key list (a bool key holds a bool, every other key a value of its ordered type), as the Go type checker enforces",
+                     "duplicate priorities, malformed tags and omitted priorities are outside the quantifier: compared in the out-of-domain stream only"],
+        level_text="TODO",
+        level_note="TODO",
+        technique="Lean 4 proof (structural induction over the generated comparison chain, for all struct definitions) + correspondence on the generated program text (go/parser) and on the compiled code (exhaustive Less, sort.Sort/sort.Stable)",
+        explanation="TODO",
+    ),
     "C17": dict(
         title="set: JSON and YAML encodings of Set round-trip membership",
         lean_modules=["Properties.C17"],
